@@ -99,8 +99,16 @@ fn repr<const N: usize, const M: usize>(lo: isize, hi: isize) {
     core::mem::forget(d);
 }
 
-// All digraphs on 3 vertices (0..=6 arcs: every residue mod 4 of the 4x-unrolled loop), weights -8..=8, every source.
-// @verif prop=C07 tier=quick fl=f2 role=sparse/small-weights t=1200 mem=14
+// Digraphs on 3 vertices with 0..=5 arcs (every residue mod 4 of the 4x-unrolled loop), weights -8..=8, every source.
+// @verif prop=C07 tier=quick fl=f2 role=sparse/small-weights t=1800 mem=14
+#[cfg_attr(kani, kani::proof)]
+#[cfg_attr(kani, kani::unwind(7))]
+pub fn c07_sparse_n3_m5() {
+    sparse::<3, 5>(-8, 8);
+}
+
+// All digraphs on 3 vertices (0..=6 arcs), weights -8..=8, every source.
+// @verif prop=C07 tier=thorough fl=f2 role=sparse/small-weights t=3600 mem=24
 #[cfg_attr(kani, kani::proof)]
 #[cfg_attr(kani, kani::unwind(8))]
 pub fn c07_sparse_n3_m6() {
